@@ -210,8 +210,14 @@ func c13Classes(r *core.Rand, curve elliptic.Curve, valid *big.Int) ([]*big.Int,
 
 func runC13(c *core.Ctx) {
 	curves := c12Curves()
-	nKeys := c.Pick(2, 12)
+	nKeys := c.Pick(2, 8)
 	digLens := []int{0, 1, 20, 28, 32, 33, 48, 64, 65, 66, 67, 128}
+	if c.Thorough() {
+		digLens = nil
+		for l := 0; l <= 130; l++ {
+			digLens = append(digLens, l)
+		}
+	}
 	for _, curve := range curves {
 		name := curve.Params().Name
 		N := curve.Params().N
